@@ -38,7 +38,8 @@ def usedRules : List String := [
   "oC_Where", "oC_ProjectionBody", "oC_ProjectionItems", "oC_ProjectionItem", "oC_Order", "oC_SortItem", "oC_Skip", "oC_Limit",
   "oC_ReadingClause", "oC_Match", "oC_Unwind", "oC_Hint", "oC_UpdatingClause", "oC_Create", "oC_Delete", "oC_Remove", "oC_RemoveItem",
   "oC_Set", "oC_SetItem", "oC_Merge", "oC_MergeAction", "oC_PropertyExpression", "oC_SinglePartQuery", "oC_MultiPartQuery", "oC_With",
-  "oC_Return", "oC_Cypher", "oC_QueryOptions", "oC_Statement", "oC_Query", "oC_RegularQuery", "oC_SingleQuery", "oC_Union"]
+  "oC_Return", "oC_Cypher", "oC_QueryOptions", "oC_Statement", "oC_Query", "oC_RegularQuery", "oC_SingleQuery", "oC_Union",
+  "oC_Quantifier", "oC_FilterExpression", "oC_IdInColl"]
 
 def usedToks : List String := [
   "OR", "XOR", "AND", "NOT", "STARTS", "WITH", "ENDS", "CONTAINS", "IN", "IS", "NULL", "COUNT", "DISTINCT", "TRUE", "FALSE",
@@ -46,7 +47,7 @@ def usedToks : List String := [
   "T__1", "T__2", "T__3", "T__4", "T__5", "T__6", "T__9", "T__10", "T__12", "T__13", "T__14", "T__15", "T__16", "T__17", "T__18",
   "T__19", "T__20", "T__21", "T__22", "T__23", "T__24", "T__25", "T__26", "T__8", "T__11", "SHORTESTPATH", "ALLSHORTESTPATHS",
   "OPTIONAL", "MATCH", "UNWIND", "AS", "WHERE", "RETURN", "ORDER", "BY", "L_SKIP", "LIMIT", "ASC", "DESC", "DESCENDING", "CREATE", "DELETE",
-  "DETACH", "REMOVE", "SET", "MERGE", "ON", "T__7"]
+  "DETACH", "REMOVE", "SET", "MERGE", "ON", "T__7", "ALL", "ANY", "NONE", "SINGLE"]
 
 /-- the tables resolve every used rule name to an index that maps back to the name, every used token name to a type, and
 different token names to different types -/
@@ -120,6 +121,16 @@ def pairwiseLt : List String → Bool
 def wMap (recW : Expr → Bool) (kvs : List (String × Expr)) : Bool :=
   kvs.all (fun p => simpleKey p.1 && recW p.2) && pairwiseLt (kvs.map (·.1))
 
+def optList {α} (o : Option α) (f : α → Tree) : List Tree := match o with | some a => [f a] | none => []
+
+def varNode (s : String) : Tree := N.nd "oC_Variable" [symName N s]
+
+def whereNode (recT : Expr → Tree) (e : Expr) : Tree := N.nd "oC_Where" [N.lf "WHERE" "where", exprNode N (recT e)]
+
+/-- token of a quantifier keyword -/
+def quantTok (ty : String) : String :=
+  if ty == "all" then "ALL" else if ty == "any" then "ANY" else if ty == "none" then "NONE" else "SINGLE"
+
 /-! ### atoms -/
 
 def tAtomInner (recT : Expr → Tree) : Expr → Tree
@@ -134,6 +145,9 @@ def tAtomInner (recT : Expr → Tree) : Expr → Tree
       ([N.lf "T__4" "["] ++ interleave (N.lf "T__6" ",") (es.map (fun e => exprNode N (recT e))) ++ [N.lf "T__5" "]"])]
   | .paren e => N.nd "oC_ParenthesizedExpression" [N.lf "T__2" "(", exprNode N (recT e), N.lf "T__3" ")"]
   | .map kvs => N.nd "oC_Literal" [tMap N recT kvs]
+  | .quant ty v c w => N.nd "oC_Quantifier" [N.lf (quantTok ty) ty, N.lf "T__2" "(",
+      N.nd "oC_FilterExpression" ([N.nd "oC_IdInColl" [varNode N v, N.lf "IN" "in", exprNode N (recT c)]] ++ optList w (whereNode N recT)),
+      N.lf "T__3" ")"]
   | .fn d _ name args => N.nd "oC_FunctionInvocation"
       ([N.nd "oC_FunctionName" [N.nd "oC_Namespace" [], symName N name], N.lf "T__2" "("] ++
        (if d then [N.lf "DISTINCT" "distinct"] else []) ++
@@ -151,6 +165,8 @@ def wAtom (recW : Expr → Bool) : Expr → Bool
   | .list es => es.all recW
   | .paren e => recW e
   | .map kvs => wMap recW kvs
+  | .quant ty _ c w => (ty == "all" || ty == "any" || ty == "none" || ty == "single") && recW c &&
+      (match w with | some x => recW x | none => true)
   | .fn _ ns _ args => ns.isEmpty && args.all recW
   | _ => false
 
@@ -305,10 +321,6 @@ def wProps' (recW : Expr → Bool) : Expr → Bool
   | .param _ => true
   | _ => false
 
-def optList {α} (o : Option α) (f : α → Tree) : List Tree := match o with | some a => [f a] | none => []
-
-def varNode (s : String) : Tree := N.nd "oC_Variable" [symName N s]
-
 def tNode (recT : Expr → Tree) : PatEl → Tree
   | .node v ls p => N.nd "oC_NodePattern"
       ([N.lf "T__2" "("] ++ optList v (varNode N) ++ (if ls.isEmpty then [] else [labelsNode N ls]) ++ optList p (tProps N recT) ++ [N.lf "T__3" ")"])
@@ -378,8 +390,6 @@ def tPart (recT : Expr → Tree) (p : PatternPart) : Tree :=
 def wPart (recW : Expr → Bool) (p : PatternPart) : Bool := !(p.shortest && p.allShortest) && wPatEl recW p.els
 
 /-! ### clauses -/
-
-def whereNode (recT : Expr → Tree) (e : Expr) : Tree := N.nd "oC_Where" [N.lf "WHERE" "where", exprNode N (recT e)]
 
 def projItem (recT : Expr → Tree) (it : Expr × Option String) : Tree :=
   N.nd "oC_ProjectionItem" (exprNode N (recT it.1) :: (match it.2 with | some a => [N.lf "AS" "as", varNode N a] | none => []))
